@@ -28,6 +28,22 @@ def tdiv(a, b):
     return q if (a >= 0) == (b >= 0) else -q
 
 
+def fdiv(a, b):
+    """IEEE-754 binary64 division (Python raises on a zero divisor)"""
+    import math
+    if math.isnan(a) or math.isnan(b):
+        return math.nan
+    if b == 0.0:
+        if a == 0.0:
+            return math.nan
+        neg = (math.copysign(1.0, a) < 0) != (math.copysign(1.0, b) < 0)
+        return -math.inf if neg else math.inf
+    try:
+        return a / b
+    except OverflowError:
+        return math.inf if (a > 0) == (b > 0) else -math.inf
+
+
 class Unknown(Exception):
     pass
 
@@ -45,6 +61,8 @@ def ev(body, e, leaf, depth=0):
         v = e[2]
         if isinstance(v, bool):
             return int(v)
+        if e[1] == 'char' and isinstance(v, str) and len(v) == 1:
+            return ord(v)             # a switch on a char compares scalar values
         if isinstance(v, (int, float, str)):
             return v
         raise Unknown('const %r' % (e[3],))
@@ -98,9 +116,11 @@ def ev(body, e, leaf, depth=0):
         if op == 'Mul':
             return a * b
         if op == 'Div':
+            if isinstance(a, float) or isinstance(b, float):
+                return fdiv(float(a), float(b))
             if b == 0:
                 raise Unknown('div0')
-            return tdiv(a, b) if isinstance(a, int) and isinstance(b, int) else a / b
+            return tdiv(a, b)
         if op == 'Rem':
             if b == 0:
                 raise Unknown('rem0')
@@ -129,26 +149,29 @@ def ev(body, e, leaf, depth=0):
         b2 = body.facts.bodies.get(e[5], body) if len(e) > 5 and e[5] else body
         sub = e[6] if len(e) > 6 else None
         feasible = []
+
+        def holds(d, v):
+            """True / False / None (unknown) for one branch decision"""
+            if sub is not None:
+                from .facts import subst_args
+                d = subst_args(d, sub)
+            try:
+                dv = ev(body, d, leaf, depth + 1)
+            except Unknown:
+                return None
+            if dv is None or not isinstance(dv, int):
+                return None
+            if isinstance(v, tuple):
+                return dv not in v[1]
+            return dv in v
         for br, where in zip(e[2], e[4]):
-            ok = True
-            for (_, d, v) in phi_branch_conditions(b2, where):
-                if sub is not None:
-                    from .facts import subst_args
-                    d = subst_args(d, sub)
-                try:
-                    dv = ev(body, d, leaf, depth + 1)
-                except Unknown:
-                    dv = None
-                if dv is None or not isinstance(dv, int):
-                    continue                       # unknown predicate: cannot exclude this branch
-                if isinstance(v, tuple):
-                    if dv in v[1]:
-                        ok = False
-                        break
-                elif dv not in v:
-                    ok = False
-                    break
-            if ok:
+            dnf = None
+            if not (isinstance(where, tuple) and where and where[0] == 'cond') and not b2.loops():
+                dnf = b2.path_dnf(where)
+            if dnf is None:
+                dnf = [phi_branch_conditions(b2, where)]
+            # the branch is infeasible only when every path to it has a decision known to be false
+            if any(all(holds(d, v) is not False for (_, d, v) in conj) for conj in dnf):
                 feasible.append(br)
         vals = []
         for br in feasible:
@@ -179,6 +202,13 @@ def ev(body, e, leaf, depth=0):
         if re.search(r'f64>?::copysign$|::copysign$', path) and len(e[2]) == 2:
             import math
             return math.copysign(rec(e[2][0]), rec(e[2][1]))
+        m = re.search(r'f64>?::(is_infinite|is_nan|is_finite)$', path)
+        if m and e[2]:
+            import math
+            v = rec(e[2][0])
+            if not isinstance(v, (int, float)):
+                raise Unknown('classify operand')
+            return int({'is_infinite': math.isinf, 'is_nan': math.isnan, 'is_finite': math.isfinite}[m.group(1)](float(v)))
         if re.search(r'f64>?::(round|trunc|floor|ceil)$', path) and e[2]:
             import math
             v = rec(e[2][0])
